@@ -466,6 +466,29 @@ def importJson (W : World) : Table → List (Str × Row) → Except Err Table
     | .ok s => importJson W ((t.set k s).onComplete (modOf k)) rest
 
 
+/-! ## node DSNs: `ModuleDSN.full_joined` / `parsed` (rogw/tranp/dsn/module.py:33-51, 94-104), `DSN.join` (rogw/tranp/dsn/dsn.py)
+
+  `serialize` writes `ModuleDSN.full_joined(node.module_path, node.full_path)`, `deserialize` reads it back with
+  `ModuleDSN.parsed` and asks the entrypoints for `(module, path)`. -/
+
+/-- `DSN.join(*parts, delimiter=d)`: empty parts are dropped -/
+def dsnJoin (d : Char) (parts : List Str) : Str := Str.join [d] (parts.filter (fun p => !p.isEmpty))
+
+/-- `ModuleDSN.local_joined(*elems)` -/
+def localJoined (elems : List Str) : Str := dsnJoin '.' elems
+
+/-- `ModuleDSN.full_joined(dsn, *elems)`: a `dsn` that already has a `#` only gets the elements appended -/
+def fullJoined (dsn : Str) (elems : List Str) : Str :=
+  if dsn.contains '#' then dsnJoin '.' (dsn :: elems) else dsnJoin '#' [dsn, localJoined elems]
+
+/-- `ModuleDSN.parsed(dsn)`: `elems = dsn.split('#')`; `(elems[0], elems[1])` if there are at least two, else `(elems[0], '')` -/
+def dsnParsed (dsn : Str) : Str × Str :=
+  match Str.splitOn '#' dsn with
+  | a :: b :: _ => (a, b)
+  | [a] => (a, [])
+  | [] => ([], [])
+
+
 /-! ## object identity: shared reflection objects, `to_temporary`, writes through a copy
 
   A reflection object may sit in several slots of an attribute tree (`tuple[T, T]` resolved with one argument object).
